@@ -26,7 +26,8 @@ REGISTRY["C02"] = rc_property(
          "back in full and compared byte for byte (wrapped host buffers too); invalid requests must raise occa::exception and leave "
          "all memory unchanged; exact-size host buffers under ASan make any out-of-range access a failure. Non-trivial = history with "
          "an invalid request, or a read through another alias after a write through a slice. Distinct = distinct serialised history.",
-    assumptions=["copy(memory, memory) is generated for equal element sizes and non-overlapping byte ranges (memcpy semantics)",
+    assumptions=["copy(memory, memory): count is in elements of the caller, each offset in elements of its own memory (as documented); "
+                 "overlapping byte ranges are not generated (memcpy semantics)",
                  "count -1 ('all elements') is requested from offset 0 only",
                  "operations whose receiver is an uninitialized handle may raise or be a no-op (both are accepted; a crash is not); "
                  "a memory-to-memory copy with exactly one uninitialized side must raise"])
